@@ -659,6 +659,15 @@ def apply(func, args, kwargs=None):
             ka, kb = a.key(), b.key()
             if (ka == "$None" and _definitely_value(b)) or (kb == "$None" and _definitely_value(a)):
                 return Rat.const(0 if func == "cmp_eq" else 1)
+            if b.is_zero():
+                # 'abc' - 'xyz' == 0 (the canonical form of a comparison of two different string literals) is false
+                ats = a.atoms(deep=False)
+                if len(ats) == 2 and all(t.func.startswith("str:") and not t.args for t in ats) and ats[0].func != ats[1].func:
+                    try:
+                        if (a - Rat.of_atom(ats[0]) + Rat.of_atom(ats[1])).is_zero() or (a + Rat.of_atom(ats[0]) - Rat.of_atom(ats[1])).is_zero():
+                            return Rat.const(0 if func == "cmp_eq" else 1)
+                    except Undefined:
+                        pass
         if func in ("cmp_eq", "cmp_ne") and not (b.is_zero() and _canon_sign(a)[1] == 1):
             try:
                 diff, _ = _canon_sign(a - b)
@@ -736,6 +745,24 @@ def apply(func, args, kwargs=None):
                 return map_atoms(mp.args[0], sub_)
             except Undefined:
                 pass
+    if func == "getitem" and len(args) == 2 and x is not None and not extra and isinstance(args[1], Rat):
+        # {literal keys: values}[literal key]: the entry
+        pd = x.as_atom("pydict")
+        if pd is not None and pd.args and isinstance(pd.args[0], tuple):
+            def _lit(r):
+                if not isinstance(r, Rat):
+                    return None
+                if r.const_value() is not None:
+                    return r.key()
+                ra = r.as_atom()
+                return ra.func if ra is not None and ra.func.startswith("str:") and not ra.args else None
+            flat = pd.args[0]
+            keys_, vals_ = flat[0::2], flat[1::2]
+            kk = _lit(args[1])
+            if kk is not None and all(_lit(k_) is not None for k_ in keys_):
+                for k_, v_ in zip(keys_, vals_):
+                    if _lit(k_) == kk and isinstance(v_, Rat):
+                        return v_
     if func == "getitem" and len(args) == 2 and x is not None and not extra:
         # (A if c else B)[k] with A, B python tuples / lists of known length and k a constant: the element is selected per branch
         xa0 = x.as_atom("ifexp")
